@@ -1,4 +1,3 @@
-(* WIP *)
 (* C26, re-encode direction: every packet the decoder model returns is well-formed (wf_packet), so the
    encoder accepts it (apart from the refused identifier 0) and the round trip theorem applies.
    The proof follows every decoder with a postcondition that records the ranges of the decoded
@@ -416,4 +415,552 @@ Lemma put_props_size ps : len (put_props ps) <= 4 + len (put_props_body ps).
 Proof.
   unfold put_props. rewrite len_app'. unfold put_vbi.
   repeat match goal with |- context [if ?c then _ else _] => destruct c end; unfold len; cbn [length]; lia.
+Qed.
+
+(* the decoded-input size for which the re-encoding is guaranteed to fit: Properties.Decode lets the
+   last property of a block run past the declared block length, so a re-encoding can be up to one
+   property (PMAX bytes) per block longer than the accepted input *)
+Definition IN_MAX : N := 268000000.
+
+Lemma len_put_str s : len (put_str s) = 2 + blen s.
+Proof. unfold len, blen, put_str, put_bin, put_u16. rewrite app_length. cbn [length]. lia. Qed.
+Lemma len_put_u16 n : len (put_u16 n) = 2.
+Proof. reflexivity. Qed.
+Lemma len_cons a (l : bytes) : len (a :: l) = 1 + len l.
+Proof. unfold len. cbn [length]. lia. Qed.
+Lemma len_nil : len (@nil N) = 0. Proof. reflexivity. Qed.
+
+(* properties at a position of the packet body *)
+Definition props_step (pk : packet) (buf : bytes) (off : N) : packet * N -> Prop :=
+  fun '(pk', o) => exists p', pk' = set_pk_props p' pk /\ wf_props p' = true /\ off <= o /\ o <= blen buf /\
+    (if pk_version pk =? 5 then psize p' + 1 <= psize (pk_props pk) + (o - off) + PMAX /\ off < o
+     else p' = pk_props pk /\ o = off).
+
+Lemma decode_props_at_inv pk buf off : wfb buf -> off <= blen buf -> wf_props (pk_props pk) = true ->
+  post (decode_props_at pk buf off)
+       (fun '(n, pk') => exists p', pk' = set_pk_props p' pk /\ wf_props p' = true /\ off + n <= blen buf /\ 1 <= n /\
+                                    psize p' + 1 <= psize (pk_props pk) + n + PMAX).
+Proof.
+  intros W H Wp. unfold decode_props_at.
+  eapply post_bind; [apply slice_from_val; [exact W | exact H]|]. intros s [Hs Ws].
+  eapply post_bind_err; [apply (props_decode_inv _ _ s Ws Wp)|]. intros [n p'] (Q1 & Q2 & Q3 & Q4).
+  cbn. exists p'. repeat split; try assumption; lia.
+Qed.
+
+Lemma props_if_v5_inv pk buf off : wfb buf -> off <= blen buf -> wf_props (pk_props pk) = true ->
+  post (props_if_v5 pk buf off) (props_step pk buf off).
+Proof.
+  intros W H Wp. unfold props_if_v5, props_step. destruct (pk_version pk =? 5) eqn:E5.
+  - eapply post_bind; [apply (decode_props_at_inv pk buf off W H Wp)|].
+    intros [n pk'] (p' & -> & Q1 & Q2 & Q3 & Q4). cbn. exists p'.
+    repeat split; try assumption; lia.
+  - cbn. exists (pk_props pk). repeat split; try assumption; try lia. destruct pk; reflexivity.
+Qed.
+
+Ltac pkred_in H :=
+  cbn [fresh_packet packet0 pk_connect pk_props pk_payload pk_reason_codes pk_filters pk_topic pk_fh pk_mods
+       pk_packet_id pk_version pk_session_present pk_reason_code pk_reserved_bit
+       set_pk_connect set_pk_props set_pk_payload set_pk_reason_codes set_pk_filters set_pk_topic set_pk_fh
+       set_pk_mods set_pk_packet_id set_pk_version set_pk_session_present set_pk_reason_code set_pk_reserved_bit
+       fh_remaining fh_type fh_qos fh_dup fh_retain upd_connect] in H.
+
+Ltac connred :=
+  cbn [c_will_flag c_username_flag c_password_flag c_will_props pk_connect set_c_protocol_name set_c_username_flag
+       set_c_password_flag set_c_will_retain set_c_will_qos set_c_will_flag set_c_clean set_c_keepalive set_c_client_id
+       set_c_will_props set_c_will_topic set_c_will_payload set_c_username set_c_password conn0
+       c_password c_username c_protocol_name c_will_payload c_client_id c_will_topic c_keepalive c_will_qos c_will_retain c_clean].
+
+Ltac easy_wf :=
+  try reflexivity; try (unfold is_byte; lia); try assumption; try (apply wfb_iff; assumption).
+
+Ltac vstep L := first [eapply post_bind | eapply post_bind_err]; [L|]; cbv beta.
+
+Lemma publish_wf v m qos dup retain buf : v < 256 -> wfb buf -> blen buf <= IN_MAX -> qos <= 2 ->
+  (qos = 0 -> dup = false) ->
+  post (publish_decode (fresh_packet v (mkfh (blen buf) 3 qos dup retain)) buf)
+       (fun pk => wf_packet (set_pk_mods m pk) = true).
+Proof.
+  intros Hv W Hmax Hq Hd. unfold publish_decode.
+  vstep ltac:(apply decodeString_val; exact W). intros [topic o1] (T1 & T2 & T3 & T4). pkred.
+  eapply post_bind with (Q := fun '(pk, o) => exists id, pk = set_pk_packet_id id (set_pk_topic topic (fresh_packet v (mkfh (blen buf) 3 qos dup retain)))
+                               /\ id < 65536 /\ o <= blen buf /\ o = o1 + (if 0 <? qos then 2 else 0) /\ (qos = 0 -> id = 0)).
+  { destruct (0 <? qos) eqn:Eq.
+    - vstep ltac:(apply decodeUint16_val; exact W). intros [id o2] (I1 & I2 & I3). cbn. exists id.
+      repeat split; try assumption; lia.
+    - cbn. exists 0. repeat split; try lia. }
+  intros [pk1 o2] (id & -> & I1 & I2 & I3 & I4).
+  vstep ltac:(apply props_if_v5_inv; [exact W | exact I2 | reflexivity]).
+  intros [pk2 o3] (p' & -> & P1 & P2 & P3 & P4). pkred.
+  vstep ltac:(apply slice_from_val; [exact W | exact P3]). intros payload [Y1 Y2].
+  cbn [post]. pkred_in P4.
+  unfold wf_packet, abs. pkred. cbv zeta. cbv iota. connred. join_and; easy_wf.
+  - (* enc_ok *)
+    cbn [enc_ok]. unfold plist_v. join_and; try lia; try assumption.
+    + destruct dup; [|apply orb_true_r]. destruct (N.eq_dec qos 0) as [Z|Z]; [specialize (Hd Z); discriminate|].
+      replace (1 <=? qos) with true by lia. reflexivity.
+    + destruct (v =? 5); [|reflexivity]. apply entries_plist; [exact P1|]. unfold PMAX, IN_MAX in *. rewrite psize0 in P4. lia.
+    + destruct (0 <? qos) eqn:Eq; [replace (1 <=? qos) with true by lia; reflexivity|].
+      rewrite N.eqb_refl. apply orb_true_r.
+  - (* size *)
+    cbn [full_body]. unfold put_props_v, v5. rewrite !len_app', len_put_str.
+    change (len payload) with (blen payload).
+    rewrite psize0 in P4.
+    destruct (qos =? 0) eqn:E0; [replace (0 <? qos) with false in * by lia | replace (0 <? qos) with true in * by lia];
+      destruct (v =? 5) eqn:E5; rewrite ?len_put_u16; change (len (@nil N)) with 0;
+      try (match goal with |- context [len (put_props ?e)] => pose proof (put_props_size e) end;
+           match goal with H : len (put_props (entries ?a ?b ?c ?d)) <= _ |- _ => pose proof (entries_size a b c d P1) end);
+      unfold PMAX, IN_MAX in *; lia.
+Qed.
+
+Ltac lens := repeat (rewrite len_app' || rewrite len_put_str || rewrite len_put_u16 || rewrite len_cons); change (len (@nil N)) with 0.
+
+Ltac fin_wf := unfold wf_packet, abs; pkred; cbv zeta; cbv iota; connred; join_and; easy_wf.
+
+Ltac props_bounds P1 :=
+  repeat match goal with |- context [len (put_props ?e)] =>
+    lazymatch goal with H : len (put_props e) <= _ |- _ => fail | _ => pose proof (put_props_size e) end end;
+  repeat match goal with H : len (put_props (entries ?a ?b ?c ?d)) <= _ |- _ =>
+    lazymatch goal with H2 : len (put_props_body (entries a b c d)) <= _ |- _ => fail
+    | _ => pose proof (entries_size a b c d P1) end end.
+
+Lemma connack_wf v m buf : v < 256 -> wfb buf -> blen buf <= IN_MAX ->
+  post (connack_decode (fresh_packet v (mkfh (blen buf) 2 0 false false)) buf)
+       (fun pk => wf_packet (set_pk_mods m pk) = true).
+Proof.
+  intros Hv W Hmax. unfold connack_decode.
+  vstep ltac:(apply decodeByteBool_val; exact W). intros [sp o1] (S1 & S2). pkred.
+  vstep ltac:(apply decodeByte_val; exact W). intros [rc o2] (R1 & R2 & R3). pkred.
+  destruct (v =? 5) eqn:E5.
+  - vstep ltac:(apply decode_props_at_inv; [exact W | exact R2 | reflexivity]).
+    intros [n pk2] (p' & -> & P1 & P2 & P3 & P4). pkred_in P4. rewrite psize0 in P4. cbn [post].
+    fin_wf.
+    + cbn [enc_ok]. unfold plist_v. pkred. rewrite E5. apply entries_plist; [exact P1|]. unfold PMAX, IN_MAX in *. lia.
+    + cbn [full_body]. unfold put_props_v, v5. pkred. rewrite E5. lens. props_bounds P1.
+      unfold PMAX, IN_MAX in *. lia.
+  - cbn [post]. fin_wf.
+    + cbn [enc_ok]. unfold plist_v. pkred. rewrite E5. reflexivity.
+    + cbn [full_body]. unfold put_props_v, v5. pkred. rewrite E5. reflexivity.
+Qed.
+
+Lemma ack_wf v m ty buf : v < 256 -> wfb buf -> blen buf <= IN_MAX -> ty = 4 \/ ty = 5 \/ ty = 6 \/ ty = 7 ->
+  post (ack_decode (fresh_packet v (mkfh (blen buf) ty (if ty =? 6 then 1 else 0) false false)) buf)
+       (fun pk => wf_packet (set_pk_mods m pk) = true).
+Proof.
+  intros Hv W Hmax Hty. unfold ack_decode.
+  vstep ltac:(apply decodeUint16_val; exact W). intros [id o1] (I1 & I2 & I3). pkred.
+  destruct ((v =? 5) && (2 <? blen buf)) eqn:Ec.
+  - apply andb_prop in Ec. destruct Ec as [E5 Er].
+    vstep ltac:(apply decodeByte_val; exact W). intros [rc o2] (R1 & R2 & R3). pkred.
+    destruct (3 <? blen buf) eqn:E3.
+    + vstep ltac:(apply decode_props_at_inv; [exact W | exact R2 | reflexivity]).
+      intros [n pk2] (p' & -> & P1 & P2 & P3 & P4). pkred_in P4. rewrite psize0 in P4. cbn [post].
+      destruct Hty as [->|[->|[->| ->]]]; fin_wf;
+        try (cbn [enc_ok ack_kind_of ack_type]; unfold plist_v; pkred; rewrite E5; cbn [orb]; rewrite andb_true_r;
+             apply entries_plist; [exact P1|]; unfold PMAX, IN_MAX in *; lia);
+        try (cbn [full_body ack_kind_of]; unfold v5; pkred; rewrite E5; lens; props_bounds P1; unfold PMAX, IN_MAX in *; lia).
+    + cbn [post].
+      destruct Hty as [->|[->|[->| ->]]]; fin_wf;
+        try (cbn [enc_ok ack_kind_of ack_type]; unfold plist_v; pkred; rewrite E5; cbn [orb]; rewrite andb_true_r;
+             apply entries_plist; [reflexivity|]; rewrite psize0; lia);
+        try (cbn [full_body ack_kind_of]; unfold v5; pkred; rewrite E5; lens;
+             match goal with |- context [len (put_props ?e)] => pose proof (put_props_size e) end;
+             match goal with H : len (put_props (entries ?a ?b ?c ?d)) <= _ |- _ => pose proof (entries_size a b c d eq_refl) end;
+             rewrite psize0 in *; lia).
+  - cbn [post].
+    destruct (v =? 5) eqn:E5.
+    + destruct Hty as [->|[->|[->| ->]]]; fin_wf;
+        try (cbn [enc_ok ack_kind_of ack_type]; unfold plist_v; pkred; rewrite E5; cbn [orb]; rewrite andb_true_r;
+             apply entries_plist; [reflexivity|]; rewrite psize0; lia);
+        try (cbn [full_body ack_kind_of]; unfold v5; pkred; rewrite E5; lens;
+             match goal with |- context [len (put_props ?e)] => pose proof (put_props_size e) end;
+             match goal with H : len (put_props (entries ?a ?b ?c ?d)) <= _ |- _ => pose proof (entries_size a b c d eq_refl) end;
+             rewrite psize0 in *; lia).
+    + destruct Hty as [->|[->|[->| ->]]]; fin_wf;
+        try (cbn [enc_ok ack_kind_of ack_type]; unfold plist_v; pkred; rewrite E5; reflexivity);
+        try (cbn [full_body ack_kind_of]; unfold v5; pkred; rewrite E5; reflexivity).
+Qed.
+
+Ltac v5_plist P1 P4 := unfold plist_v; pkred; apply entries_plist; [exact P1|]; unfold PMAX, IN_MAX in *; lia.
+
+Lemma suback_wf v m buf : v < 256 -> wfb buf -> blen buf <= IN_MAX ->
+  post (suback_decode (fresh_packet v (mkfh (blen buf) 9 0 false false)) buf)
+       (fun pk => wf_packet (set_pk_mods m pk) = true).
+Proof.
+  intros Hv W Hmax. unfold suback_decode.
+  vstep ltac:(apply decodeUint16_val; exact W). intros [id o1] (I1 & I2 & I3). pkred.
+  vstep ltac:(apply props_if_v5_inv; [exact W | exact I2 | reflexivity]).
+  intros [pk2 o3] (p' & -> & P1 & P2 & P3 & P4). pkred. pkred_in P4. rewrite psize0 in P4.
+  vstep ltac:(apply slice_from_val; [exact W | exact P3]). intros codes [Y1 Y2]. cbn [post].
+  fin_wf.
+  - cbn [enc_ok]. unfold plist_v. destruct (v =? 5); [|reflexivity].
+    apply entries_plist; [exact P1|]. unfold PMAX, IN_MAX in *. lia.
+  - cbn [full_body]. unfold put_props_v, v5, codes_of. lens. change (len codes) with (blen codes).
+    destruct (v =? 5); [props_bounds P1|]; change (len (@nil N)) with 0; unfold PMAX, IN_MAX in *; lia.
+Qed.
+
+Lemma unsuback_wf v m buf : v < 256 -> wfb buf -> blen buf <= IN_MAX ->
+  post (unsuback_decode (fresh_packet v (mkfh (blen buf) 11 0 false false)) buf)
+       (fun pk => wf_packet (set_pk_mods m pk) = true).
+Proof.
+  intros Hv W Hmax. unfold unsuback_decode.
+  vstep ltac:(apply decodeUint16_val; exact W). intros [id o1] (I1 & I2 & I3). pkred.
+  destruct (v =? 5) eqn:E5.
+  - vstep ltac:(apply decode_props_at_inv; [exact W | exact I2 | reflexivity]).
+    intros [n pk2] (p' & -> & P1 & P2 & P3 & P4). pkred_in P4. rewrite psize0 in P4.
+    vstep ltac:(apply slice_from_val; [exact W | exact P2]). intros codes [Y1 Y2]. cbn [post].
+    fin_wf.
+    + cbn [enc_ok]. unfold plist_v. pkred. rewrite E5. cbn [orb]. rewrite andb_true_r.
+      apply entries_plist; [exact P1|]. unfold PMAX, IN_MAX in *. lia.
+    + cbn [full_body]. unfold put_props_v, v5, codes_of. pkred. rewrite E5. lens. change (len codes) with (blen codes).
+      props_bounds P1. unfold PMAX, IN_MAX in *. lia.
+  - cbn [post]. fin_wf.
+    + cbn [enc_ok]. unfold plist_v. pkred. rewrite E5. reflexivity.
+    + cbn [full_body]. unfold put_props_v, v5. pkred. rewrite E5. reflexivity.
+Qed.
+
+Lemma disconnect_wf v m buf : v < 256 -> wfb buf -> blen buf <= IN_MAX ->
+  post (disconnect_decode (fresh_packet v (mkfh (blen buf) 14 0 false false)) buf)
+       (fun pk => wf_packet (set_pk_mods m pk) = true).
+Proof.
+  intros Hv W Hmax. unfold disconnect_decode. pkred.
+  destruct ((v =? 5) && (0 <? blen buf)) eqn:Ec.
+  - apply andb_prop in Ec. destruct Ec as [E5 Er].
+    vstep ltac:(apply decodeByte_val; exact W). intros [rc o2] (R1 & R2 & R3). pkred.
+    destruct (1 <? blen buf) eqn:E3.
+    + vstep ltac:(apply decode_props_at_inv; [exact W | exact R2 | reflexivity]).
+      intros [n pk2] (p' & -> & P1 & P2 & P3 & P4). pkred_in P4. rewrite psize0 in P4. cbn [post].
+      fin_wf.
+      * cbn [enc_ok]. unfold plist_v. pkred. rewrite E5. cbn [orb]. rewrite andb_true_r.
+        apply entries_plist; [exact P1|]. unfold PMAX, IN_MAX in *. lia.
+      * cbn [full_body]. unfold v5. pkred. rewrite E5. lens. props_bounds P1. unfold PMAX, IN_MAX in *. lia.
+    + cbn [post]. fin_wf.
+      * cbn [enc_ok]. unfold plist_v. pkred. rewrite E5. cbn [orb]. rewrite andb_true_r.
+        apply entries_plist; [reflexivity|]. rewrite psize0. lia.
+      * cbn [full_body]. unfold v5. pkred. rewrite E5. lens.
+        match goal with |- context [len (put_props ?e)] => pose proof (put_props_size e) end.
+        match goal with H : len (put_props (entries ?a ?b ?c ?d)) <= _ |- _ => pose proof (entries_size a b c d eq_refl) end.
+        rewrite psize0 in *. lia.
+  - cbn [post]. destruct (v =? 5) eqn:E5.
+    + fin_wf.
+      * cbn [enc_ok]. unfold plist_v. pkred. rewrite E5. cbn [orb]. rewrite andb_true_r.
+        apply entries_plist; [reflexivity|]. rewrite psize0. lia.
+      * cbn [full_body]. unfold v5. pkred. rewrite E5. lens.
+        match goal with |- context [len (put_props ?e)] => pose proof (put_props_size e) end.
+        match goal with H : len (put_props (entries ?a ?b ?c ?d)) <= _ |- _ => pose proof (entries_size a b c d eq_refl) end.
+        rewrite psize0 in *. lia.
+    + fin_wf.
+      * cbn [enc_ok]. unfold plist_v. pkred. rewrite E5. reflexivity.
+      * cbn [full_body]. unfold v5. pkred. rewrite E5. reflexivity.
+Qed.
+
+Lemma auth_wf v m buf : v < 256 -> wfb buf -> blen buf <= IN_MAX ->
+  post (auth_decode (fresh_packet v (mkfh (blen buf) 15 0 false false)) buf)
+       (fun pk => wf_packet (set_pk_mods m pk) = true).
+Proof.
+  intros Hv W Hmax. unfold auth_decode. pkred.
+  destruct (blen buf =? 0) eqn:E0.
+  - cbn [post]. fin_wf.
+    + cbn [enc_ok]. apply entries_plist; [reflexivity|]. rewrite psize0. lia.
+    + cbn [full_body]. lens.
+      match goal with |- context [len (put_props ?e)] => pose proof (put_props_size e) end.
+      match goal with H : len (put_props (entries ?a ?b ?c ?d)) <= _ |- _ => pose proof (entries_size a b c d eq_refl) end.
+      rewrite psize0 in *. lia.
+  - vstep ltac:(apply decodeByte_val; exact W). intros [rc o2] (R1 & R2 & R3). pkred.
+    destruct (1 <? blen buf) eqn:E3.
+    + vstep ltac:(apply decode_props_at_inv; [exact W | exact R2 | reflexivity]).
+      intros [n pk2] (p' & -> & P1 & P2 & P3 & P4). pkred_in P4. rewrite psize0 in P4. cbn [post].
+      fin_wf.
+      * cbn [enc_ok]. apply entries_plist; [exact P1|]. unfold PMAX, IN_MAX in *. lia.
+      * cbn [full_body]. lens. props_bounds P1. unfold PMAX, IN_MAX in *. lia.
+    + cbn [post]. fin_wf.
+      * cbn [enc_ok]. apply entries_plist; [reflexivity|]. rewrite psize0. lia.
+      * cbn [full_body]. lens.
+        match goal with |- context [len (put_props ?e)] => pose proof (put_props_size e) end.
+        match goal with H : len (put_props (entries ?a ?b ?c ?d)) <= _ |- _ => pose proof (entries_size a b c d eq_refl) end.
+        rewrite psize0 in *. lia.
+Qed.
+
+Lemma ping_wf v m ty rem : v < 256 -> ty = 12 \/ ty = 13 ->
+  wf_packet (set_pk_mods m (fresh_packet v (mkfh rem ty 0 false false))) = true.
+Proof.
+  intros Hv [-> | ->]; fin_wf.
+Qed.
+
+(* ---------- SUBSCRIBE / UNSUBSCRIBE payloads ---------- *)
+
+Definition filt_ok (s : subscription) : bool :=
+  str_fits (s_filter s) && (s_qos s <=? 2) && (s_retain_handling s <? 4).
+Fixpoint fsize (k : N) (l : list subscription) : N :=
+  match l with [] => 0 | s :: r => k + blen (s_filter s) + fsize k r end.
+
+Lemma fsize_app k a b : fsize k (a ++ b) = fsize k a + fsize k b.
+Proof. induction a as [|s a IH]; cbn [app fsize]; lia. Qed.
+
+Lemma land3_lt x : N.land 3 x < 4.
+Proof. rewrite N.land_comm. change 3 with (N.ones 2). rewrite N.land_ones. change (2 ^ 2) with 4. lia. Qed.
+
+Lemma subscribe_loop_inv fuel : forall v5 ids buf off acc,
+  wfb buf -> off <= blen buf -> blen buf < off + N.of_nat fuel ->
+  post (subscribe_loop fuel v5 ids buf off acc)
+       (fun fs => exists fs', fs = acc ++ fs' /\ forallb filt_ok fs' = true /\ fsize 3 fs' + off = blen buf).
+Proof.
+  induction fuel as [|f IH]; intros v5 ids buf off acc W H1 H2; [lia|].
+  cbn [subscribe_loop]. destruct (blen buf <=? off) eqn:E.
+  { cbn. exists []. rewrite app_nil_r. repeat split. cbn [fsize]. lia. }
+  vstep ltac:(apply decodeString_val; exact W). intros [flt o1] (F1 & F2 & F3 & F4).
+  vstep ltac:(apply decodeByte_val; exact W). intros [opt o2] (O1 & O2 & O3).
+  match goal with |- context [2 <? s_qos ?s] => set (sub := s) end.
+  destruct (2 <? s_qos sub) eqn:Eq; [exact I|].
+  eapply post_weaken; [apply (IH v5 ids buf o2 (acc ++ [sub]) W O2 ltac:(lia))|].
+  intros fs (fs' & -> & G1 & G2). exists (sub :: fs'). split; [rewrite <- app_assoc; reflexivity|]. split.
+  - cbn [forallb]. rewrite G1, andb_true_r. unfold filt_ok.
+    assert (Hs : s_filter sub = flt /\ s_retain_handling sub < 4).
+    { unfold sub. destruct v5; destruct ids; cbn; split; try reflexivity; try apply land3_lt; lia. }
+    destruct Hs as [Hf Hr]. rewrite Hf, F3. cbn [andb]. apply andb_true_intro. split; lia.
+  - cbn [fsize]. assert (Hf : s_filter sub = flt) by (unfold sub; destruct v5; destruct ids; reflexivity).
+    rewrite Hf. lia.
+Qed.
+
+Lemma unsubscribe_loop_inv fuel : forall buf off acc,
+  wfb buf -> off <= blen buf -> blen buf < off + N.of_nat fuel ->
+  post (unsubscribe_loop fuel buf off acc)
+       (fun fs => exists fs', fs = acc ++ fs' /\ forallb filt_ok fs' = true /\ fsize 2 fs' + off = blen buf).
+Proof.
+  induction fuel as [|f IH]; intros buf off acc W H1 H2; [lia|].
+  cbn [unsubscribe_loop]. destruct (blen buf <=? off) eqn:E.
+  { cbn. exists []. rewrite app_nil_r. repeat split. cbn [fsize]. lia. }
+  vstep ltac:(apply decodeString_val; exact W). intros [flt o1] (F1 & F2 & F3 & F4).
+  eapply post_weaken; [apply (IH buf o1 (acc ++ [set_s_filter flt sub0]) W F2 ltac:(lia))|].
+  intros fs (fs' & -> & G1 & G2). exists (set_s_filter flt sub0 :: fs'). split; [rewrite <- app_assoc; reflexivity|]. split.
+  - cbn [forallb]. rewrite G1. unfold filt_ok. cbn [s_filter set_s_filter s_qos s_retain_handling sub0]. rewrite F3. reflexivity.
+  - cbn [fsize s_filter set_s_filter]. lia.
+Qed.
+
+Lemma filters_len v (fs : list subscription) :
+  len (concat (map (put_filter v) (map (filter_of (v =? 5)) fs))) = fsize 3 fs.
+Proof.
+  induction fs as [|s r IH]; [reflexivity|]. cbn [map concat fsize]. rewrite len_app', IH.
+  unfold put_filter. rewrite len_app', len_put_str, len_cons. change (len (@nil N)) with 0.
+  destruct (v =? 5); cbn [filter_of f_filter]; lia.
+Qed.
+
+Lemma unsub_filters_len (fs : list subscription) :
+  len (concat (map put_str (map s_filter fs))) = fsize 2 fs.
+Proof.
+  induction fs as [|s r IH]; [reflexivity|]. cbn [map concat fsize]. rewrite len_app', IH, len_put_str. lia.
+Qed.
+
+Lemma subscribe_wf v m buf : v < 256 -> wfb buf -> blen buf <= IN_MAX ->
+  post (subscribe_decode (fresh_packet v (mkfh (blen buf) 8 1 false false)) buf)
+       (fun pk => wf_packet (set_pk_mods m pk) = true).
+Proof.
+  intros Hv W Hmax. unfold subscribe_decode.
+  vstep ltac:(apply decodeUint16_val; exact W). intros [id o1] (I1 & I2 & I3). pkred.
+  vstep ltac:(apply props_if_v5_inv; [exact W | exact I2 | reflexivity]).
+  intros [pk2 o3] (p' & -> & P1 & P2 & P3 & P4). pkred. pkred_in P4. rewrite psize0 in P4.
+  vstep ltac:(apply subscribe_loop_inv; [exact W | exact P3 | unfold blen; lia]).
+  intros fs (fs' & -> & G1 & G2). cbn [app post].
+  fin_wf.
+  - cbn [enc_ok]. apply andb_true_intro. split.
+    + unfold plist_v. destruct (v =? 5); [|reflexivity].
+      apply entries_plist; [exact P1|]. unfold PMAX, IN_MAX in *. lia.
+    + rewrite forallb_forall. intros f Hf. apply in_map_iff in Hf. destruct Hf as (s & <- & Hs).
+      rewrite forallb_forall in G1. specialize (G1 s Hs). unfold filt_ok in G1. split_and.
+      unfold filter_fits. destruct (v =? 5); cbn [filter_of f_filter f_qos f_no_local f_retain_as_published f_retain_handling];
+        join_and; try assumption; reflexivity.
+  - cbn [full_body]. unfold put_props_v, v5. lens. rewrite filters_len.
+    destruct (v =? 5); [props_bounds P1|]; change (len (@nil N)) with 0; unfold PMAX, IN_MAX in *; lia.
+  - rewrite forallb_forall. intros s Hs. rewrite forallb_forall in G1. specialize (G1 s Hs).
+    unfold filt_ok in G1. split_and. join_and; assumption.
+Qed.
+
+Lemma unsubscribe_wf v m buf : v < 256 -> wfb buf -> blen buf <= IN_MAX ->
+  post (unsubscribe_decode (fresh_packet v (mkfh (blen buf) 10 1 false false)) buf)
+       (fun pk => wf_packet (set_pk_mods m pk) = true).
+Proof.
+  intros Hv W Hmax. unfold unsubscribe_decode.
+  vstep ltac:(apply decodeUint16_val; exact W). intros [id o1] (I1 & I2 & I3). pkred.
+  vstep ltac:(apply props_if_v5_inv; [exact W | exact I2 | reflexivity]).
+  intros [pk2 o3] (p' & -> & P1 & P2 & P3 & P4). pkred. pkred_in P4. rewrite psize0 in P4.
+  vstep ltac:(apply unsubscribe_loop_inv; [exact W | exact P3 | unfold blen; lia]).
+  intros fs (fs' & -> & G1 & G2). cbn [app post].
+  fin_wf.
+  - cbn [enc_ok]. apply andb_true_intro. split.
+    + unfold plist_v. destruct (v =? 5); [|reflexivity].
+      apply entries_plist; [exact P1|]. unfold PMAX, IN_MAX in *. lia.
+    + rewrite forallb_forall. intros f Hf. apply in_map_iff in Hf. destruct Hf as (s & <- & Hs).
+      rewrite forallb_forall in G1. specialize (G1 s Hs). unfold filt_ok in G1. split_and. assumption.
+  - cbn [full_body]. unfold put_props_v, v5. lens. rewrite unsub_filters_len.
+    destruct (v =? 5); [props_bounds P1|]; change (len (@nil N)) with 0; unfold PMAX, IN_MAX in *; lia.
+  - rewrite forallb_forall. intros s Hs. rewrite forallb_forall in G1. specialize (G1 s Hs).
+    unfold filt_ok in G1. split_and. join_and; assumption.
+Qed.
+
+(* ---------- CONNECT ---------- *)
+
+Definition connect_standard (pk : packet) : bool :=
+  let v := pk_version pk in
+  let c := pk_connect pk in
+  ((v =? 3) || (v =? 4) || (v =? 5))
+  && beq_bytes (c_protocol_name c) (if v =? 3 then bytes_of_string "MQIsdp" else bytes_of_string "MQTT")
+  && (c_will_flag c || ((c_will_qos c =? 0) && negb (c_will_retain c))).
+
+Lemma will_props_if_v5_inv pk buf off : wfb buf -> off <= blen buf -> wf_props (c_will_props (pk_connect pk)) = true ->
+  post (will_props_if_v5 pk buf off)
+       (fun '(pk', o) => exists p', pk' = upd_connect (set_c_will_props p') pk /\ wf_props p' = true /\ off <= o /\ o <= blen buf /\
+          (if pk_version pk =? 5 then psize p' + 1 <= psize (c_will_props (pk_connect pk)) + (o - off) + PMAX /\ off < o
+           else p' = c_will_props (pk_connect pk) /\ o = off)).
+Proof.
+  intros W H Wp. unfold will_props_if_v5. destruct (pk_version pk =? 5) eqn:E5.
+  - eapply post_bind; [apply slice_from_val; [exact W | exact H]|]. intros s [Hs Ws].
+    eapply post_bind_err; [apply (props_decode_inv _ _ s Ws Wp)|]. intros [n p'] (Q1 & Q2 & Q3 & Q4).
+    cbn. exists p'. repeat split; try assumption; lia.
+  - cbn. exists (c_will_props (pk_connect pk)). repeat split; try assumption; try lia.
+    destruct pk as [c ? ? ? ? ? ? ? ? ? ? ? ?]. destruct c. reflexivity.
+Qed.
+
+Lemma bind_bind {A B C} (r : res A) (f : A -> res B) (g : B -> res C) :
+  bind (bind r f) g = bind r (fun a => bind (f a) g).
+Proof. destruct r; reflexivity. Qed.
+Lemma bind_bind_err {A B C} (r : res A) e (f : A -> res B) (g : B -> res C) :
+  bind (bind_err r e f) g = bind_err r e (fun a => bind (f a) g).
+Proof. destruct r; reflexivity. Qed.
+Ltac flat := repeat (rewrite bind_bind || rewrite bind_bind_err); cbn beta iota delta [bind bind_err].
+
+Lemma beq_bytes_eq'' a : forall b, beq_bytes a b = true -> a = b.
+Proof.
+  induction a as [|x a IH]; destruct b as [|y b]; cbn [beq_bytes]; intro H; try discriminate; [reflexivity|].
+  apply andb_prop in H. destruct H as [H1 H2]. apply N.eqb_eq in H1. subst y. f_equal. apply IH. exact H2.
+Qed.
+
+Lemma connect_wf v m buf : wfb buf -> blen buf <= IN_MAX ->
+  post (connect_decode (fresh_packet v (mkfh (blen buf) 1 0 false false)) buf)
+       (fun pk => fh_type (pk_fh pk) = 1 /\ (connect_standard pk = true -> wf_packet (set_pk_mods m pk) = true)).
+Proof.
+  intros W Hmax. unfold connect_decode.
+  vstep ltac:(apply decodeBytes_val; exact W). intros [name o1] (N1 & N2 & N3 & N4). pkred.
+  vstep ltac:(apply decodeByte_val; exact W). intros [ver o2] (V1 & V2 & V3). pkred.
+  vstep ltac:(apply decodeByte_val; exact W). intros [flags o3] (F1 & F2 & F3). pkred.
+  vstep ltac:(apply decodeUint16_val; exact W). intros [ka o4] (K1 & K2 & K3). pkred.
+  vstep ltac:(apply props_if_v5_inv; [exact W | exact K2 | reflexivity]).
+  intros [pk2 o5] (p' & -> & P1 & P2 & P3 & P4). pkred. pkred_in P4. rewrite psize0 in P4.
+  vstep ltac:(apply decodeString_val; exact W). intros [cid o6] (C1 & C2 & C3 & C4). pkred. connred.
+  pose proof (land3_lt (N.shiftr flags 3)) as Hwq.
+  set (wq := N.land 3 (N.shiftr flags 3)) in *. set (wr := Wire.bit flags 5). set (cl := Wire.bit flags 1).
+  set (rb := N.land 1 flags).
+  destruct (Wire.bit flags 2) eqn:Bw; destruct (Wire.bit flags 7) eqn:Bu; destruct (Wire.bit flags 6) eqn:Bp;
+    cbv iota; flat.
+  all: try (vstep ltac:(apply will_props_if_v5_inv; [exact W | exact C2 | reflexivity]);
+            intros [pk3 o7] (wp' & -> & Q1 & Q2 & Q3 & Q4); pkred; connred; pkred_in Q4; cbn [c_will_props pk_connect set_pk_connect set_c_client_id set_c_keepalive set_c_username_flag set_c_password_flag set_c_will_retain set_c_will_qos set_c_will_flag set_c_clean set_c_protocol_name conn0 packet0 fresh_packet set_pk_fh set_pk_version set_pk_reserved_bit set_pk_props upd_connect] in Q4;
+            rewrite psize0 in Q4; flat;
+            vstep ltac:(apply decodeString_val; exact W); intros [wt o8] (T1 & T2 & T3 & T4); flat;
+            vstep ltac:(apply decodeBytes_val; exact W); intros [wpl o9] (Y1 & Y2 & Y3 & Y4); flat; pkred; connred).
+  all: flat; pkred; connred; cbv iota; flat.
+  all: try (match goal with |- post (bind (if blen ?b <=? ?o then _ else _) _) _ => destruct (blen b <=? o); [exact I|] end; flat;
+            vstep ltac:(apply decodeBytes_val; exact W); intros [un oA] (U1 & U2 & U3 & U4); flat; pkred; connred).
+  all: flat; pkred; connred; cbv iota; flat.
+  all: try (vstep ltac:(apply decodeBytes_val; exact W); intros [pw oB] (X1 & X2 & X3 & X4); flat; pkred; connred).
+  all: cbn [post]; split; [reflexivity|]; intro Hstd; unfold connect_standard in Hstd; pkred_in Hstd;
+       cbn [c_will_flag c_protocol_name c_will_qos c_will_retain pk_connect set_c_password set_c_username set_c_will_payload set_c_will_topic set_c_will_props set_c_client_id set_c_keepalive set_c_username_flag set_c_password_flag set_c_will_retain set_c_will_qos set_c_will_flag set_c_clean set_c_protocol_name conn0] in Hstd;
+       split_and.
+  all: match goal with Hn : beq_bytes ?nm _ = true |- _ => pose proof (beq_bytes_eq'' _ _ Hn) as Ename end.
+  all: match goal with HP : (if ?vv =? 5 then _ else _) |- _ => destruct (vv =? 5) eqn:E5 end;
+       repeat match goal with Hc : _ /\ _ |- _ => destruct Hc end;
+       repeat match goal with He : ?x = props0 |- _ => subst x end.
+  all: fin_wf.
+  all: try (cbn [enc_ok opt_ok]; unfold will_fits, plist_v; cbn [will_props will_topic will_payload will_qos];
+            repeat match goal with E : (_ =? 5) = _ |- _ => rewrite E end;
+            join_and; try assumption; try reflexivity; try lia;
+            apply entries_plist; first [assumption | unfold PMAX, IN_MAX in *; lia]).
+  all: try (change (1 =? 1) with true; cbv iota; join_and; try assumption; try reflexivity; lia).
+  all: cbn [full_body will_props will_topic will_payload]; unfold put_props_v, v5;
+       repeat match goal with E : (_ =? 5) = _ |- _ => rewrite E end;
+       match goal with En : _ = (if _ =? 3 then _ else _) |- _ => rewrite <- En end; lens; unfold put_bin; lens;
+       repeat match goal with |- context [len (put_props ?e)] =>
+         lazymatch goal with H : len (put_props e) <= _ |- _ => fail | _ => pose proof (put_props_size e) end end;
+       repeat match goal with H : len (put_props (entries ?a ?b ?c ?d)) <= _ |- _ =>
+         lazymatch goal with H2 : len (put_props_body (entries a b c d)) <= _ |- _ => fail
+         | _ => pose proof (entries_size a b c d ltac:(assumption)) end end;
+       unfold PMAX, IN_MAX, len, blen in *; lia.
+Qed.
+
+(* ---------- the fixed header ---------- *)
+
+Definition fh_check (hb : N) : bool :=
+  match fh_decode fh0 hb with
+  | Ok fh =>
+      (fh_remaining fh =? 0) && (fh_type fh <=? 15) &&
+      (if fh_type fh =? 3
+       then (fh_qos fh <=? 2) && (negb (fh_qos fh =? 0) || negb (fh_dup fh))
+       else negb (fh_dup fh) && negb (fh_retain fh)
+            && (fh_qos fh =? (if (fh_type fh =? 6) || (fh_type fh =? 8) || (fh_type fh =? 10) then 1 else 0)))
+  | Err _ => true
+  | _ => false
+  end.
+
+Lemma fh_check_all hb : hb < 256 -> fh_check hb = true.
+Proof.
+  intro H.
+  assert (S : forallb fh_check (rangeN 256) = true) by (vm_compute; reflexivity).
+  exact (forall_below _ 256 S hb H).
+Qed.
+
+Lemma post_ok {A} (r : res A) Q a : post r Q -> r = Ok a -> Q a.
+Proof. intros P E. rewrite E in P. exact P. Qed.
+
+Lemma blen_firstn n (l : bytes) : n <= blen l -> blen (firstn (N.to_nat n) l) = n.
+Proof. unfold blen. intro H. rewrite firstn_length. lia. Qed.
+
+(* EVERY PACKET THE DECODER RETURNS IS WELL-FORMED (for re-encoding with any Mods), provided a
+   CONNECT has the standard protocol name / level and no will bits without a will flag (which
+   ConnectValidate requires as well), and the input is not within 0.4 MB of the protocol's maximum *)
+Theorem decoded_wf v bs pk rest m : v < 256 -> wfb bs -> blen bs <= IN_MAX ->
+  mochi_decode_packet v bs = Ok (pk, rest) ->
+  (fh_type (pk_fh pk) = 1 -> connect_standard pk = true) ->
+  wf_packet (set_pk_mods m pk) = true.
+Proof.
+  intros Hv W Hmax E Hstd. unfold mochi_decode_packet in E.
+  destruct bs as [|hb r]; [discriminate|].
+  assert (Hhb : hb < 256) by (inversion W; assumption).
+  pose proof (fh_check_all hb Hhb) as C. unfold fh_check in C.
+  destruct (fh_decode fh0 hb) as [fh| | |]; try discriminate. cbn beta iota delta [bind] in E.
+  apply wf_cons_r in W.
+  destruct (vbi_decode r) as [n bu r'| |] eqn:Ev; try discriminate.
+  destruct (vbi_decode_val r n bu r' W Ev) as (V1 & V2 & V3 & V4).
+  destruct (blen r' <? n) eqn:En; [discriminate|].
+  set (body := firstn (N.to_nat n) r') in *.
+  assert (Wb : wfb body) by (apply wfb_firstn; exact V4).
+  assert (Lb : blen body = n) by (apply blen_firstn; lia).
+  assert (Mb : blen body <= IN_MAX) by (rewrite blen_cons in Hmax; lia).
+  destruct (mochi_decode_body v (set_fh_remaining n fh) body) as [pk'| | |] eqn:Eb; try discriminate.
+  cbn beta iota delta [bind] in E. injection E as <- <-.
+  destruct fh as [rem ty qos dup retain]. cbn [fh_remaining fh_type fh_qos fh_dup fh_retain set_fh_remaining] in *.
+  apply andb_prop in C. destruct C as [C C3]. apply andb_prop in C. destruct C as [_ C2].
+  unfold mochi_decode_body, decode_body in Eb. cbn [fresh_packet pk_fh set_pk_fh fh_type] in Eb.
+  rewrite <- Lb in Eb.
+  assert (T : ty = 0 \/ ty = 1 \/ ty = 2 \/ ty = 3 \/ ty = 4 \/ ty = 5 \/ ty = 6 \/ ty = 7 \/ ty = 8 \/ ty = 9 \/
+              ty = 10 \/ ty = 11 \/ ty = 12 \/ ty = 13 \/ ty = 14 \/ ty = 15) by lia.
+  destruct T as [->|[->|[->|[->|[->|[->|[->|[->|[->|[->|[->|[->|[->|[->|[->| ->]]]]]]]]]]]]]]];
+    try discriminate Eb;
+    repeat match goal with Hx : context [N.eqb (Npos ?a) (Npos ?b)] |- _ =>
+      let rr := eval vm_compute in (N.eqb (Npos a) (Npos b)) in change (N.eqb (Npos a) (Npos b)) with rr in Hx end;
+    cbv iota in C3; cbn [orb] in C3; split_and;
+    try (destruct dup; [discriminate|]); try (destruct retain; [discriminate|]);
+    try (match goal with Hq : (qos =? _) = true |- _ => apply N.eqb_eq in Hq; subst qos end).
+  - (* connect *)
+    pose proof (post_ok _ _ _ (connect_wf v m body Wb Mb) Eb) as [P1 P2]. apply P2. apply Hstd. exact P1.
+  - apply (post_ok _ _ _ (connack_wf v m body Hv Wb Mb) Eb).
+  - apply (post_ok _ _ _ (publish_wf v m qos dup retain body Hv Wb Mb ltac:(lia) ltac:(intro Z; subst qos; destruct dup; [discriminate|reflexivity])) Eb).
+  - apply (post_ok _ _ _ (ack_wf v m 4 body Hv Wb Mb ltac:(auto)) Eb).
+  - apply (post_ok _ _ _ (ack_wf v m 5 body Hv Wb Mb ltac:(auto)) Eb).
+  - apply (post_ok _ _ _ (ack_wf v m 6 body Hv Wb Mb ltac:(auto)) Eb).
+  - apply (post_ok _ _ _ (ack_wf v m 7 body Hv Wb Mb ltac:(auto)) Eb).
+  - apply (post_ok _ _ _ (subscribe_wf v m body Hv Wb Mb) Eb).
+  - apply (post_ok _ _ _ (suback_wf v m body Hv Wb Mb) Eb).
+  - apply (post_ok _ _ _ (unsubscribe_wf v m body Hv Wb Mb) Eb).
+  - apply (post_ok _ _ _ (unsuback_wf v m body Hv Wb Mb) Eb).
+  - injection Eb as <-. apply ping_wf; auto.
+  - injection Eb as <-. apply ping_wf; auto.
+  - apply (post_ok _ _ _ (disconnect_wf v m body Hv Wb Mb) Eb).
+  - apply (post_ok _ _ _ (auth_wf v m body Hv Wb Mb) Eb).
 Qed.
